@@ -1,5 +1,6 @@
 import Reduino.Lang.Libs
 import Reduino.Lemmas.C14
+import Reduino.Props.C13
 /-
   C14 — Library deps, #includes and instantiated library classes always agree.
   For every multiset of device declarations in the documented positions (any number of servos, parallel and I2C LCDs and
@@ -37,6 +38,27 @@ theorem no_library_without_device (ds : List Decl) (h : ∀ d ∈ ds, d.kind = .
   simp only [libs, includes, instantiated, order, List.filterMap_cons, List.filterMap_nil,
     h1 _ hs, h1 _ hp, h1 _ hi, h2 _ hs, h2 _ hp, h2 _ hi]
   simp
+
+/-- end to end: the libraries that reach the build — `lib_deps` of the `platformio.ini` written for the requested libraries, as a
+    standard INI reader sees them — are exactly the headers the sketch includes (and nothing is lost or doubled on the way):
+    `_collect_required_libraries` → `write_project` → configparser composed, for every set of documented declarations -/
+theorem build_gets_included_libraries (ds : List Decl) (h : Documented ds) (port platform board : Toolchain.Str)
+    (hport : Reduino.Props.C13.WfValue port) (hplat : Reduino.Props.C13.WfValue platform) (hboard : Reduino.Props.C13.WfValue board) :
+    ∃ libv, Toolchain.parseLines (Toolchain.iniLines ⟨port, platform, board, (libs ds).map String.toList⟩) = some
+      [ ("env:".toList ++ Toolchain.sanitize board,
+          [ ("platform".toList, platform), ("board".toList, board), ("framework".toList, "arduino".toList), ("upload_port".toList, port) ] ++
+          (if includes ds = [] then [] else [("lib_deps".toList, libv)])) ] ∧
+      (includes ds ≠ [] → Toolchain.valueItems libv = (includes ds).map String.toList) := by
+  have hwf := libs_map_wf ds
+  have hdd : Toolchain.dedupLibs ((libs ds).map String.toList) [] = (libs ds).map String.toList :=
+    Reduino.Props.C13.dedup_id _ (libs_map_nodup ds) (fun l hl => (hwf l hl).2.1)
+  obtain ⟨libv, h1, h2⟩ := Reduino.Props.C13.ini_roundtrip
+    ⟨port, platform, board, (libs ds).map String.toList⟩ hport hplat hboard (fun l hl => Or.inr (hwf l hl))
+  have hli : libs ds = includes ds := (libs_includes_instances_agree ds h).1
+  rw [← hli]
+  simp only [hdd, List.map_eq_nil_iff] at h1 h2
+  refine ⟨libv, h1, ?_⟩
+  simpa only [ne_eq, List.map_eq_nil_iff] using h2
 
 /-- outside the documented positions the sets can disagree: a Servo declared inside an `if` is requested but neither
     included nor instantiated (recorded as a note: outside the property's quantifier) -/
